@@ -378,6 +378,21 @@ mk B32; d=$D
 edit "$d/graph/graphalg/order.go" 's.replace("\t\t\tif !visited.Test(succ) {\n\t\t\t\tvisit(succ)\n\t\t\t}\n", "\t\t\tvisit(succ)\n", 1)'
 expect B32 "$d" C19 tie_failed tie_PreOrder
 
+echo "== H19 harmless: DomFrontier tests the unreachable predecessor with swapped conjuncts and operands"
+mk H19; d=$D
+edit "$d/graph/graphalg/dom.go" 's.replace("if pred != root && idom[pred] == -1 {", "if idom[pred] == -1 && root != pred {").replace("if rdf == b {", "if b == rdf {")'
+expect H19 "$d" C19 ok
+
+echo "== B33 breaking: DomFrontier walks up from unreachable predecessors too (defect D12 re-introduced)"
+mk B33; d=$D
+edit "$d/graph/graphalg/dom.go" 's.replace("\t\t\tif pred != root && idom[pred] == -1 {\n\t\t\t\t// pred is unreachable from root.\n\t\t\t\tcontinue\n\t\t\t}\n", "")'
+expect B33 "$d" C19 tie_failed tie_DomFrontier
+
+echo "== B34 breaking: DomFrontier's membership test compares with the runner instead of b"
+mk B34; d=$D
+edit "$d/graph/graphalg/dom.go" 's.replace("\t\t\t\t\tif rdf == b {", "\t\t\t\t\tif rdf == runner {")'
+expect B34 "$d" C19 tie_failed tie_DomFrontier
+
 if [ $FULL = 1 ]; then
   echo "== full check on B1: both ties report (correspondence finds a failing input)"
   out=$(VERIF_REPO="$B1" bin/check C13 quick 2>&1); rc=$?
